@@ -255,6 +255,7 @@ func verdictOf(obs string) string {
 
 // C15: the real parser against the reference (the engine model run on the table read from grammar.peg).
 func runC15(r *Run) {
+	c15BlankKinds(r)
 	r.Rule = "hand corpus + every 1- and 2-token sequence of a 40-token alphabet with and without blanks (thorough: also every 3-token sequence) + random token sequences + grammar derivations + rendered random trees + token mutations + malformed bytes; non-trivial = distinct string; compared: verdict, tree and step count of grammar.Parse vs the engine model on the table read from grammar.peg"
 	nth := 0
 	parserCorpus(r.Tier, r.Seed, func(stream, s string) {
@@ -474,6 +475,7 @@ func budgetTime(b uint64) time.Duration {
 
 // C11: WithMaxExpressions is an exact, monotone budget.
 func runC11(r *Run) {
+	c11ReusedOptionAndLastBudget(r)
 	r.Rule = "inputs: hand corpus, derivations, rendered trees, mutations, malformed strings and nested parentheses (depth 1..9); per input the step count N of the unlimited parse (VerifParse) and budgets {1, 2, N/2, N-1, N, N+1, 2N, geometric sweep}; predicate on the implementation: n >= N or n = 0 gives the unlimited result, 0 < n < N gives the max-expressions error after exactly n+1 steps; CreateEvaluator with WithMaxExpressions agrees; the model is compared on the same (input, budget) pairs; non-trivial = distinct (input, budget)"
 	var inputs []string
 	seen := map[string]bool{}
